@@ -16,6 +16,9 @@ PATTERNS  (1) every `pdl.pattern` op of the .mlir corpus (chunks that parse), ta
               replace by a new arith.constant, erase}.  Three slices: all matching shapes x simplest rewrite,
               core shapes x type constraints, core shapes x all rewrites.  Every generated pattern terminates (a
               rewrite removes one op carrying the root's name and never creates one).
+          (3) the multi-result family (`multi_result_patterns` x `multi_result_payloads`): the root consumes
+              `pdl.result k of %d`, k in {0, 1}, of a two-result definition (result 0, result 1, both in either order,
+              or next to an unconstrained operand); payloads: one two-result test.op + 1-2 consumers, all wirings.
 PAYLOADS  func.func over two i32 block arguments with <= N ops over {arith.constant 0/1/2, addi, muli, subi,
           test.op (0-2 operands, 0/1 result)}, ALL operand wirings over block arguments and earlier results,
           every value used (otherwise-unused results are returned), modulo swapping the two block arguments
@@ -367,6 +370,10 @@ def render_payload(p: tuple, fname: str = "f", nargs: int = 2) -> str:
             lines.append(f"{r} = arith.constant {op[1]} : i32")
             names.append(r)
             tys.append("i32")
+        elif op[0] == "d":     # a definition with TWO results
+            lines.append(f'{r}:2 = "test.op"() : () -> (i32, i32)')
+            names += [f"{r}#0", f"{r}#1"]
+            tys += ["i32", "i32"]
         elif op[0] == "b":
             lines.append(f"{r} = arith.{op[1]} {names[op[2]]}, {names[op[3]]} : i32")
             used |= {op[2], op[3]}
@@ -415,6 +422,60 @@ def payload_set(quick: bool) -> tuple[list[tuple], int]:
         if k == 0:
             n_always = len(out)
     return out, n_always
+
+
+def multi_result_payloads() -> list[tuple]:
+    """one two-result definition `%d:2 = "test.op"()`, then 1 or 2 consumers (arith.addi x y / "test.op"(x) -> i32)
+    with ALL wirings over {block args, %d#0, %d#1, earlier consumer}; modulo swapping the block arguments"""
+    out, seen = [], set()
+
+    def rec(ops: list, nvals: int, left: int) -> None:
+        if len(ops) > 1:
+            q = min(tuple(ops), _swap(tuple(ops)))
+            if q not in seen:
+                seen.add(q)
+                out.append(q)
+        if left == 0:
+            return
+        for i in range(nvals):
+            rec(ops + [("t", (i,), "i32")], nvals + 1, left - 1)
+            for j in range(nvals):
+                rec(ops + [("b", "addi", i, j)], nvals + 1, left - 1)
+
+    rec([("d",)], 4, 2)
+    return out
+
+
+def multi_result_patterns() -> list[str]:
+    """`%d = pdl.operation "test.op" -> (%t0, %t1)`; the root consumes `pdl.result k of %d`, k in {0, 1}: result 0,
+    result 1, or both in either order (and with an unconstrained second operand); the rewrite replaces the root by its
+    operand 0 or by result 0 / 1 of the matched definition."""
+    shapes = [("arith.addi", s) for s in ((0, 0), (0, 1), (1, 0), (1, 1), (0, "any"), (1, "any"), ("any", 0), ("any", 1))]
+    shapes += [("test.op", (0,)), ("test.op", (1,))]
+    out = []
+    for root, sh in shapes:
+        for target in ("operand0", 0, 1):
+            ls = ["%t0 = pdl.type", "%t1 = pdl.type",
+                  '%d = pdl.operation "test.op" -> (%t0, %t1 : !pdl.type, !pdl.type)']
+            for k in sorted({x for x in sh if x != "any"}):
+                ls.append(f"%r{k} = pdl.result {k} of %d")
+            vals = []
+            for x in sh:
+                if x == "any":
+                    ls.append("%v = pdl.operand")
+                    vals.append("%v")
+                else:
+                    vals.append(f"%r{x}")
+            ls.append("%t = pdl.type")
+            ls.append(f'%root = pdl.operation "{root}" (' + ", ".join(vals) + " : " + ", ".join("!pdl.value" for _ in vals)
+                      + ") -> (%t : !pdl.type)")
+            if target == "operand0":
+                body = [f"pdl.replace %root with ({vals[0]} : !pdl.value)"]
+            else:
+                body = [f"%rw = pdl.result {target} of %d", "pdl.replace %root with (%rw : !pdl.value)"]
+            out.append("pdl.pattern : benefit(1) {\n" + "".join("  " + ln + "\n" for ln in ls) + "  pdl.rewrite %root {\n"
+                       + "".join("    " + ln + "\n" for ln in body) + "  }\n}\n")
+    return out
 
 
 def payload_has(p: tuple, name: str) -> bool:
@@ -712,6 +773,10 @@ def pattern_class(pm: Any) -> tuple[str, frozenset, str]:
                 feats.add("type=shared")
         if isinstance(o, pdl.OperandOp) and o.value_type is not None:
             feats.add("operand-typed")
+        if isinstance(o, pdl.ResultOp) and o.index.value.data > 0:
+            feats.add("result-index>0")
+        if isinstance(o, pdl.OperationOp) and o is not root_op and len(o.type_values) > 1:
+            feats.add("multi-result-def")
         if not isinstance(o, (pdl.OperationOp, pdl.AttributeOp, pdl.TypeOp, pdl.OperandOp, pdl.ResultOp)):
             feats.add("uses:" + o.name)
     if any(c > 1 for c in n_operand_slots.values()):
@@ -905,12 +970,13 @@ def witness_payload(pm: Any) -> str | None:
 # =====================================================================================================================
 _PAYLOAD_FUNCS: list | None = None     # parsed once in the parent, inherited by the forked workers
 _PAYLOAD_SPECS: list | None = None
+_MULTI_FUNCS: list | None = None      # payloads with a two-result definition (multi_result_payloads)
 _N_ALWAYS = 0
 BATCH = 64
 
 
 def _load_payloads(quick: bool) -> None:
-    global _PAYLOAD_FUNCS, _PAYLOAD_SPECS, _N_ALWAYS
+    global _PAYLOAD_FUNCS, _PAYLOAD_SPECS, _N_ALWAYS, _MULTI_FUNCS
     from xdsl.parser import Parser
 
     specs, _N_ALWAYS = payload_set(quick)
@@ -919,7 +985,11 @@ def _load_payloads(quick: bool) -> None:
     m.verify()
     _PAYLOAD_SPECS = specs
     _PAYLOAD_FUNCS = list(m.body.ops)
-    for f in _PAYLOAD_FUNCS:
+    text = "".join(render_payload(p, f"m{i}") for i, p in enumerate(multi_result_payloads()))
+    mm = Parser(corpus.fresh_ctx(), text).parse_module()
+    mm.verify()
+    _MULTI_FUNCS = list(mm.body.ops)
+    for f in _PAYLOAD_FUNCS + _MULTI_FUNCS:
         _input_canon(f)
 
 
@@ -1068,8 +1138,25 @@ def _corpus_shard(arg: tuple) -> Stats:
 
 
 # =====================================================================================================================
+def _multi_shard(arg: tuple) -> Stats:
+    lo, hi, seed = arg
+    st = Stats()
+    assert _MULTI_FUNCS is not None
+    for pi, text in enumerate(multi_result_patterns()[lo:hi]):
+        st.transitions += 1
+        comp = Compiled(text, allow_unregistered=False)
+        cls = pattern_class(comp.pattern_module)
+        st.outcomes["pattern-class:" + class_label(cls)] += 1
+        if comp.err is not None:
+            st.outcomes[f"conversion-{comp.err[0]}"] += 1
+        check_pairs(st, comp, cls, _MULTI_FUNCS, lambda i, text=text: {"pattern": text, "multi_result_payload_index": i})
+        if (lo + pi + seed) % 11 == 0:
+            st.sample({"pattern": text, "class": class_label(cls)})
+    return st
+
+
 def _shard(task: tuple) -> Stats:
-    return _corpus_shard(task[1:]) if task[0] == "corpus" else _gen_shard(task[1:])
+    return {"corpus": _corpus_shard, "gen": _gen_shard, "multi": _multi_shard}[task[0]](task[1:])
 
 
 def _minimise_signatures(stats: list[Stats]) -> None:
@@ -1121,13 +1208,20 @@ def run(ctx: Any) -> None:
     # corpus shards first (a non-terminating path costs TIMEOUT_S per call); results are merged in task order, not
     # completion order, so witnesses and samples do not depend on scheduling
     ctasks = [("corpus", i, cps[i:i + 2], not quick, ctx.seed) for i in range(0, len(cps), 2)]
-    res = sorted(pmap(_shard, ctasks + [("gen",) + t for t in tasks]), key=lambda r: (r[0][0] != "gen", r[0][1] if r[0][0] == "corpus" else r[0][2]))
+    nm = len(multi_result_patterns())
+    mtasks = [("multi", lo, min(lo + 3, nm), ctx.seed) for lo in range(0, nm, 3)]
+    rank = {"gen": 0, "multi": 1, "corpus": 2}
+    res = sorted(pmap(_shard, ctasks + mtasks + [("gen",) + t for t in tasks]),
+                 key=lambda r: (rank[r[0][0]], r[0][2] if r[0][0] == "gen" else r[0][1]))
     stats = [pre] + [st for _, st in res]
     _minimise_signatures(stats)
     for st in stats:
         ctx.merge(st)
     ctx.bounds = {
         "generated_patterns": len(pats), "corpus_patterns": len(cps), "payloads": len(_PAYLOAD_FUNCS),
+        "multi_result_family": {"patterns": nm, "payloads": len(_MULTI_FUNCS or []),
+                                "what": "pdl.result k of a two-result definition, k in {0,1}, consumers use result 0 / 1 / both in either order; "
+                                        "payloads: one two-result test.op + 1-2 consumers, all wirings"},
         "pattern_tree": "root in {addi,muli,subi,test.op}; operands any/same/nested (depth<=2, arith.constant value=0/1/2); "
                         "types any/i32/shared; rewrites operand/nested-operand/new-op/new-constant/erase",
         "payloads_run_against_every_pattern": _N_ALWAYS,
